@@ -41,6 +41,7 @@ import (
 	"github.com/hashicorp/consul/agent/netutil"
 	"github.com/hashicorp/consul/agent/structs"
 	raftstorage "github.com/hashicorp/consul/internal/storage/raft"
+	"github.com/hashicorp/consul/proto/private/pbpeering"
 )
 
 // ---------------------------------------------------------------- a real FSM
@@ -138,10 +139,51 @@ type Failure struct {
 type cutStats struct {
 	restores, applies, rows, queries int
 	donorTables, restoredTables      map[string]int
+	// secretCombos: cuts at which some peering (accepting / dialing) held exactly this combination
+	// of establishment, pending and active secrets
+	secretCombos map[string]int
 }
 
 func newCutStats() *cutStats {
-	return &cutStats{donorTables: map[string]int{}, restoredTables: map[string]int{}}
+	return &cutStats{donorTables: map[string]int{}, restoredTables: map[string]int{}, secretCombos: map[string]int{}}
+}
+
+// secretCombos: per peering-secrets row of the store, which secrets it holds.
+func secretCombos(st *state.Store) []string {
+	dials := map[string]string{}
+	var rows []*pbpeering.PeeringSecrets
+	st.WalkAllTables(func(table string, item interface{}) bool {
+		switch v := item.(type) {
+		case *pbpeering.Peering:
+			if v.ShouldDial() {
+				dials[v.ID] = "dialing"
+			} else {
+				dials[v.ID] = "accepting"
+			}
+		case *pbpeering.PeeringSecrets:
+			rows = append(rows, v)
+		}
+		return true
+	})
+	var out []string
+	for _, r := range rows {
+		side := dials[r.PeerID]
+		if side == "" {
+			side = "orphan"
+		}
+		c := side + ":"
+		if r.GetEstablishment().GetSecretID() != "" {
+			c += "E"
+		}
+		if r.GetStream().GetPendingSecretID() != "" {
+			c += "P"
+		}
+		if r.GetStream().GetActiveSecretID() != "" {
+			c += "A"
+		}
+		out = append(out, c)
+	}
+	return out
 }
 
 // compareDumps: strict equality, else lenient equality (known deviations), else violation.
@@ -323,6 +365,11 @@ func runDonor(cmds []wcmd, cuts map[int]bool, st *cutStats) *donorRun {
 	r := &donorRun{}
 	for k := 0; k <= len(cmds); k++ {
 		r.stale = append(r.stale, staleChecks(d.store()))
+		if st != nil {
+			for _, c := range secretCombos(d.store()) {
+				st.secretCombos[c]++
+			}
+		}
 		if cuts == nil || cuts[k] || k == len(cmds) {
 			b, err := d.snapshot()
 			r.snaps = append(r.snaps, b)
@@ -539,6 +586,7 @@ type Summary struct {
 	CommandTypes     []int          `json:"command_types"`
 	ProjectedFields  []string       `json:"projected_fields"`
 	SelfTestDetected bool           `json:"self_test_detected"`
+	SecretCombos     map[string]int `json:"peering_secret_combinations_at_cuts"`
 }
 
 func main() {
@@ -612,13 +660,19 @@ func main() {
 	}
 	rng := rand.New(rand.NewSource(*seed))
 	st := newCutStats()
-	mixes := []string{"catalog", "kv", "mesh", "admin"}
+	mixes := []string{"catalog", "kv", "mesh", "admin", "peering"}
 	shrunkSigs := map[string]int{}
-	for i := -1; i < nw; i++ {
-		if i == -1 {
-			// the fixed peering history (see corpusWide)
+	for i := -3; i < nw; i++ {
+		if i < 0 {
+			// the fixed histories (see corpusWide, corpusWideGateway, corpusWideSecrets)
 			cmds := corpusWide()
-			h := runWide(2000, "corpus", cmds, st, false)
+			if i == -2 {
+				cmds = corpusWideGateway()
+			}
+			if i == -3 {
+				cmds = corpusWideSecrets()
+			}
+			h := runWide(2003+i, "corpus", cmds, st, false)
 			for _, f := range h.Failures {
 				key := sigKey(f)
 				sc, sk := shrink(cmds, f.Cut, key)
@@ -671,6 +725,7 @@ func main() {
 
 	// table coverage
 	sum := Summary{Mode: "summary", Tables: state.VerifC02TableNames(), DonorTables: st.donorTables, RestoredTables: st.restoredTables,
+		SecretCombos: st.secretCombos,
 		Restores: st.restores, Applies: st.applies, RowsCompared: st.rows, QueriesCompared: st.queries, ProjectedFields: projectedNotes,
 		NeverRestored: []string{}, NeverPopulated: []string{}}
 	for _, t := range sum.Tables {
